@@ -152,7 +152,7 @@ theorem cythonPath_eq_pythonPath (q : LQuery) (m : LMol) (tComps : List (List Na
     rw [← isoWith_python]
     exact isoWith_congr _ _ tComps scope cqs comps hF2
   rw [pythonPath_eq]
-  unfold cythonPath Iso.isoGetMapping
+  unfold cythonPath cythonPathWith Iso.isoGetMapping
   have hpq : (pyProblem q m tComps scope autoF).q = q.graph := rfl
   have hpa : (pyProblem q m tComps scope autoF).autoFilter = autoF := rfl
   simp only [hpq, hpa, hcq, henq, Option.bind_eq_bind, Option.bind_some, hems]
